@@ -25,8 +25,15 @@
        of every integer / nil / float leaf the encoder writes, C07's byte-level typed
        decoder model (C07/Model.v, tied to the real DecodeInt64 / DecodeUint64 /
        DecodeFloat64 by the C07 correspondence) returns what the generic decoder
-       returns reading [rd_*] on the item.  Still transcribed: float32 destinations,
-       the string / bytes / time / bool reads, the container walk, cbor and binc;
+       returns reading [rd_*] on the item.  Still transcribed for msgpack / simple: float32
+       destinations, the string / bytes / time / bool reads, the container walk.
+       For cbor and binc: C01_cbor_typed_reads / C01_binc_typed_reads (the same numeric
+       statement, every option vector incl. OptimumSize float narrowing and binc's pruned /
+       special forms) and C01_cbor_typed_reads_leaves_partial / C01_binc_typed_reads_leaves_partial
+       (TryNil, CheckBreak, DecodeBool, DecodeStringAsBytes incl. cbor chunks and binc symbols --
+       stateful --, DecodeBytes, DecodeTime, ReadArrayStart / ReadMapStart against byte-level
+       reader models C01/TypedRd.v).  Still transcribed there: float32 destinations, cbor tag-1
+       times, the element walk between a container head and its end;
      - reflection / unsafe value access (a Go value is a [gv] tree), the resolved
        struct field list (C16), and everything Generic/Dec.v lists as not modelled:
        merge into non-zero destinations (C19), interface slots (C15), extensions /
@@ -36,7 +43,8 @@
 From Coq Require Import List NArith ZArith Bool Permutation.
 From Verif Require Import Base.Outcome Gen.Consts Wire.Item Generic.Types Generic.Enc Generic.Dec.
 From Verif Require Import C01.ComposeFloat C01.ComposeSimple C01.ComposeMsgpack C01.ComposeCbor C01.ComposeCborTime C01.ComposeBinc C01.ComposeTyped.
-From Verif Require Wire.Simple Wire.Msgpack Wire.Cbor C10.CborConv Wire.Binc Wire.BincProofs C07.Model.
+From Verif Require Import C01.TypedRd C01.TypedCbor C01.TypedBinc.
+From Verif Require Wire.Simple Wire.Msgpack Wire.Cbor C10.CborConv Wire.Binc Wire.BincProofs Wire.CborTime C07.Model.
 Import ListNotations.
 
 (* ---------------- simple ---------------- *)
@@ -423,4 +431,196 @@ Example C01_typed_reads_nonvacuous :
   C07.Model.decode C07.Model.simple C07.Model.KUint32 (zb (Simple.enc (Simple.mkeopts false false) true (IInt 70000%Z) ++ [9]%N)) = Ok 70000%Z /\
   typed (W_simple (Simple.mkeopts false false) (Simple.mkdopts true false 0)) cx_O1 C07.Model.KUint32
         (wn (W_simple (Simple.mkeopts false false) (Simple.mkdopts true false 0)) (IInt 70000%Z)) = Ok 70000%Z.
+Proof. cbv zeta. repeat apply conj; vm_compute; reflexivity. Qed.
+
+(* ---------------- typed reads on bytes = typed reads on the item (cbor, binc) ---------------- *)
+
+(* cbor, numbers: the statement of C01_msgpack_typed_reads for the cbor driver, every option vector.
+   Under OptimumSize a float64 / float32 item may travel as a float32 / float16: it is read back widened,
+   exactly ([IF64 b] comes back as [b]).  Not covered: float32 destinations, integer <-> float cross-kind
+   reads (rd_* abstain). *)
+Theorem C01_cbor_typed_reads : forall (Oc : Cbor.eopts) (D : Cbor.dopts) (O : gopts) (rest : list N),
+  (forall k i, C07.Model.is_int_kind k = true -> int_item i -> leaf_ok (W_cbor Oc D) i = true ->
+     C07.Model.decode C07.Model.cbor k (zb (Cbor.enc Oc i ++ rest)) = typed (W_cbor Oc D) O k (wn (W_cbor Oc D) i)) /\
+  (forall k, C07.Model.decode C07.Model.cbor k (zb (Cbor.enc Oc INil ++ rest)) = typed (W_cbor Oc D) O k (wn (W_cbor Oc D) INil)) /\
+  (forall b, (b < 2 ^ 64)%N ->
+     C07.Model.decode C07.Model.cbor C07.Model.KFloat64 (zb (Cbor.enc Oc (IF64 b) ++ rest))
+       = typed (W_cbor Oc D) O C07.Model.KFloat64 (wn (W_cbor Oc D) (IF64 b))) /\
+  (forall b, (b < 2 ^ 32)%N ->
+     C07.Model.decode C07.Model.cbor C07.Model.KFloat64 (zb (Cbor.enc Oc (IF32 b) ++ rest))
+       = typed (W_cbor Oc D) O C07.Model.KFloat64 (wn (W_cbor Oc D) (IF32 b))).
+Proof. exact cbor_typed_reads. Qed.
+Print Assumptions C01_cbor_typed_reads.
+
+(* cbor, the other typed reads, against the byte-level reader models of C01/TypedRd.v (glue around the
+   pieces of Wire/Cbor.v).  [stored g r] = the read's answer as the generic layer stores it + the remaining
+   input; [leaving r rest] = the item-level answer [of_item W O 0 t (wn W i)] + [rest].  For every option
+   vector, any trailing bytes, fuel [f] at least twice the encoding's length (the chunk loop):
+     TryNil            every item the generic encoder produces (no tags / extensions): nil consumed, anything
+                       else left unread; CheckBreak does not fire on an item and consumes the break byte;
+     DecodeBool; DecodeStringAsBytes / DecodeBytes on text and byte strings, definite or cut into chunks
+                       (IndefiniteLength), StringToRaw / RawToString;
+     ReadArrayStart / ReadMapStart: the length (or "unknown" under IndefiniteLength), leaving exactly the
+                       elements' encodings (+ break) + rest, and the item is the element-wise normalised one;
+     DecodeTime        the zero time (nil), and under TimeRFC3339 every instant of a year 0..9999: tag 0 +
+                       text, parsed and rounded to the microsecond (driver record W_cbor_t).
+   PARTIAL -- kinds NOT covered: float32 destinations; times written as tag 1 (epoch seconds, TimeRFC3339
+   off: the float arithmetic is not proved); DecodeBytes on an array of small integers (never written for a
+   []byte); ValidateUnicode; the element walk is not composed (head and leaves only). *)
+Theorem C01_cbor_typed_reads_leaves_partial : forall (Oc : Cbor.eopts) (D : Cbor.dopts) (O : gopts) (rest : list N),
+  (forall i, TypedCbor.gen_item i ->
+     c_TryNil (Cbor.enc Oc i ++ rest)
+       = Ok (is_nil (W_cbor Oc D) (wn (W_cbor Oc D) i),
+             if is_nil (W_cbor Oc D) (wn (W_cbor Oc D) i) then rest else Cbor.enc Oc i ++ rest)
+     /\ (is_nil (W_cbor Oc D) (wn (W_cbor Oc D) i) = false ->
+         c_CheckBreak (Cbor.enc Oc i ++ rest) = Ok (false, Cbor.enc Oc i ++ rest))) /\
+  c_CheckBreak (Cbor.bdBreak :: rest) = Ok (true, rest) /\
+  (forall f x, (1 <= f)%nat ->
+     stored GBool (c_DecodeBool D f (Cbor.enc Oc (IBool x) ++ rest))
+       = leaving (of_item (W_cbor Oc D) O 0 TBool (wn (W_cbor Oc D) (IBool x))) rest) /\
+  (forall f s, Forall (fun x => x < 256)%N s -> (N.of_nat (length s) < 2 ^ 63)%N -> (2 * length (Cbor.enc Oc (IStr s)) <= f)%nat ->
+     stored GStr (c_DecodeBytes D f (Cbor.enc Oc (IStr s) ++ rest))
+       = leaving (of_item (W_cbor Oc D) O 0 TString (wn (W_cbor Oc D) (IStr s))) rest) /\
+  (forall f s, Forall (fun x => x < 256)%N s -> (N.of_nat (length s) < 2 ^ 63)%N -> (2 * length (Cbor.enc Oc (IBytes s)) <= f)%nat ->
+     stored (fun x => GBytes (Some x)) (c_DecodeBytes D f (Cbor.enc Oc (IBytes s) ++ rest))
+       = leaving (of_item (W_cbor Oc D) O 0 TBytes (wn (W_cbor Oc D) (IBytes s))) rest) /\
+  (forall f l, (1 <= f)%nat -> (N.of_nat (length l) < 2 ^ 63)%N ->
+     c_ReadArrayStart D f (Cbor.enc Oc (IArr l) ++ rest)
+       = Ok (if Cbor.eo_indef Oc then LUnknown else LKnown (N.of_nat (length l)), c_body Oc l (Cbor.enc Oc) ++ rest)
+     /\ wn (W_cbor Oc D) (IArr l) = IArr (map (wn (W_cbor Oc D)) l)) /\
+  (forall f l, (1 <= f)%nat -> (N.of_nat (length l) < 2 ^ 63)%N ->
+     c_ReadMapStart D f (Cbor.enc Oc (IMap l) ++ rest)
+       = Ok (if Cbor.eo_indef Oc then LUnknown else LKnown (N.of_nat (length l)),
+             c_body Oc l (fun kv => Cbor.enc Oc (fst kv) ++ Cbor.enc Oc (snd kv)) ++ rest)
+     /\ wn (W_cbor Oc D) (IMap l) = IMap (map (fun kv => (wnk (W_cbor Oc D) (fst kv), wn (W_cbor Oc D) (snd kv))) l)) /\
+  (forall f,
+     stored (fun sn : Z * N => GTime (fst sn) (snd sn)) (c_DecodeTime D f (Cbor.enc Oc (ITime time_zero_sec 0) ++ rest))
+       = leaving (of_item (W_cbor Oc D) O 0 TTime (wn (W_cbor Oc D) (ITime time_zero_sec 0))) rest) /\
+  (forall f s n, Cbor.eo_rfc3339 Oc = true -> CborTime.year_ok s = true -> (n < 1000000000)%N ->
+     (2 * length (Cbor.enc Oc (ITime s n)) <= f)%nat ->
+     stored (fun sn : Z * N => GTime (fst sn) (snd sn)) (c_DecodeTime D f (Cbor.enc Oc (ITime s n) ++ rest))
+       = leaving (of_item (W_cbor_t Oc D) O 0 TTime (wn (W_cbor_t Oc D) (ITime s n))) rest).
+Proof. exact cbor_typed_reads_leaves. Qed.
+Print Assumptions C01_cbor_typed_reads_leaves_partial.
+
+(* binc, numbers, in value or map-key position [key] and ANY encoder symbol table [est] (numbers do not touch
+   it: the state comes back unchanged): the statement of C01_msgpack_typed_reads for the binc driver -- special
+   zero / -1, small ints, pruned 1..8-byte magnitudes; special float codes, the pruned and the full float64
+   form, float32.  A float comes back as binc_losses says (one zero, one NaN).  Not covered: float32
+   destinations, integer <-> float cross-kind reads (rd_* abstain). *)
+Theorem C01_binc_typed_reads : forall (e : Binc.eopts) (d : Binc.dopts) (O : gopts) (key : bool) (est : Binc.estate) (rest : list N),
+  (forall k i, C07.Model.is_int_kind k = true -> int_item i -> leaf_ok (W_binc e d) i = true ->
+     C07.Model.decode C07.Model.binc k (zb (fst (Binc.enc e key i est) ++ rest)) = typed (W_binc e d) O k (wn (W_binc e d) i)
+     /\ snd (Binc.enc e key i est) = est) /\
+  (forall k, C07.Model.decode C07.Model.binc k (zb (fst (Binc.enc e key INil est) ++ rest)) = typed (W_binc e d) O k (wn (W_binc e d) INil)
+     /\ snd (Binc.enc e key INil est) = est) /\
+  (forall b, (b < 2 ^ 64)%N ->
+     C07.Model.decode C07.Model.binc C07.Model.KFloat64 (zb (fst (Binc.enc e key (IF64 b) est) ++ rest))
+       = typed (W_binc e d) O C07.Model.KFloat64 (wn (W_binc e d) (IF64 b))
+     /\ snd (Binc.enc e key (IF64 b) est) = est) /\
+  (forall b, (b < 2 ^ 32)%N ->
+     C07.Model.decode C07.Model.binc C07.Model.KFloat64 (zb (fst (Binc.enc e key (IF32 b) est) ++ rest))
+       = typed (W_binc e d) O C07.Model.KFloat64 (wn (W_binc e d) (IF32 b))
+     /\ snd (Binc.enc e key (IF32 b) est) = est).
+Proof. exact binc_typed_reads_num. Qed.
+Print Assumptions C01_binc_typed_reads.
+
+(* binc, the other typed reads, STATEFUL: in ANY Encoder symbol table [est] and Decoder symbol table [dst]
+   related by BincProofs.R, value or map-key position, every option vector (AsSymbols, StringToRaw;
+   RawToString), any trailing bytes:
+     TryNil            every item the generic encoder produces;
+     DecodeBool;
+     DecodeStringAsBytes  plain string, raw bytes (StringToRaw), a symbol DEFINITION (first occurrence of a
+                       map key under AsSymbols: the decoder table learns it) and a symbol REFERENCE (looked up
+                       in [dst]): the same bytes come back, exactly [rest] is left, and the tables after the
+                       read are again related -- so the next read starts from the theorem's premise;
+     DecodeBytes; DecodeTime (nanoseconds, any int64 second; the zero time as nil);
+     ReadArrayStart / ReadMapStart: the length, leaving the elements' encodings written in the threaded
+                       encoder state + rest; the item is the element-wise normalised one.
+   PARTIAL -- kinds NOT covered: float32 destinations; DecodeBytes on an array of small integers (never written
+   for a []byte) and on a symbol; ValidateUnicode; the element walk is not composed (head and leaves only). *)
+Theorem C01_binc_typed_reads_leaves_partial : forall (e : Binc.eopts) (d : Binc.dopts) (O : gopts) (key : bool)
+    (est : Binc.estate) (dst : Binc.dstate) (rest : list N),
+  BincProofs.R est dst ->
+  (forall i, TypedBinc.gen_item i ->
+     b_TryNil (fst (Binc.enc e key i est) ++ rest)
+       = Ok (is_nil (W_binc e d) (wn (W_binc e d) i),
+             if is_nil (W_binc e d) (wn (W_binc e d) i) then rest else fst (Binc.enc e key i est) ++ rest)) /\
+  (forall x, stored GBool (b_DecodeBool (fst (Binc.enc e key (IBool x) est) ++ rest))
+               = leaving (of_item (W_binc e d) O 0 TBool (wn (W_binc e d) (IBool x))) rest) /\
+  (forall s, Binc.lenok s ->
+     exists dst',
+       b_DecodeStringAsBytes dst (fst (Binc.enc e key (IStr s) est) ++ rest) = Ok (s, rest, dst')
+       /\ BincProofs.R (snd (Binc.enc e key (IStr s) est)) dst'
+       /\ of_item (W_binc e d) O 0 TString (wn (W_binc e d) (IStr s)) = Ok (GStr s)) /\
+  (forall s, Binc.lenok s ->
+     stored (fun x => GBytes (Some x)) (b_DecodeBytes (fst (Binc.enc e key (IBytes s) est) ++ rest))
+       = leaving (of_item (W_binc e d) O 0 TBytes (wn (W_binc e d) (IBytes s))) rest) /\
+  (forall s n, (- 2 ^ 63 <= s < 2 ^ 63)%Z -> (n < 1000000000)%N ->
+     stored (fun sn : Z * N => GTime (fst sn) (snd sn)) (b_DecodeTime (fst (Binc.enc e key (ITime s n) est) ++ rest))
+       = leaving (of_item (W_binc e d) O 0 TTime (wn (W_binc e d) (ITime s n))) rest) /\
+  (forall l, Binc.lenok l ->
+     b_ReadArrayStart (fst (Binc.enc e key (IArr l) est) ++ rest) = Ok (LKnown (Binc.len l), fst (BincProofs.enc_list e l est) ++ rest)
+     /\ snd (Binc.enc e key (IArr l) est) = snd (BincProofs.enc_list e l est)
+     /\ wn (W_binc e d) (IArr l) = IArr (map (wn (W_binc e d)) l)) /\
+  (forall l, Binc.lenok l ->
+     b_ReadMapStart (fst (Binc.enc e key (IMap l) est) ++ rest) = Ok (LKnown (Binc.len l), fst (BincProofs.enc_pairs e l est) ++ rest)
+     /\ snd (Binc.enc e key (IMap l) est) = snd (BincProofs.enc_pairs e l est)
+     /\ wn (W_binc e d) (IMap l) = IMap (map (fun kv => (wnk (W_binc e d) (fst kv), wn (W_binc e d) (snd kv))) l)).
+Proof. exact binc_typed_reads_leaves. Qed.
+Print Assumptions C01_binc_typed_reads_leaves_partial.
+
+(* cbor typed reads, both sides computed: OptimumSize narrows 1.5 to a half float, an integral float64 to a
+   float32; 2^64-1 into int64 overflows; -1 into uint8 is refused; a chunked text string; an indefinite array head;
+   an RFC 3339 time with a fraction *)
+Example C01_cbor_typed_reads_nonvacuous :
+  let Oc := Cbor.mkeo true true false true in              (* IndefiniteLength, TimeRFC3339, OptimumSize *)
+  let D := Cbor.mkdo false false true 0 in                 (* SkipUnexpectedTags *)
+  let W := W_cbor Oc D in
+  let dec k i := C07.Model.decode C07.Model.cbor k (zb (Cbor.enc Oc i ++ [7; 7]%N)) in
+  Cbor.enc Oc (IF64 4609434218613702656%N) = [249; 62; 0]%N /\
+  dec C07.Model.KFloat64 (IF64 4609434218613702656%N) = Ok 4609434218613702656%Z /\
+  typed W cx_O1 C07.Model.KFloat64 (wn W (IF64 4609434218613702656%N)) = Ok 4609434218613702656%Z /\
+  Cbor.enc Oc (IF64 4715268809856909312%N) = [250; 75; 128; 0; 0]%N /\
+  dec C07.Model.KFloat64 (IF64 4715268809856909312%N) = Ok 4715268809856909312%Z /\
+  dec C07.Model.KInt64 (IUint 18446744073709551615%N) = Err EOverflow /\
+  typed W cx_O1 C07.Model.KInt64 (wn W (IUint 18446744073709551615%N)) = Err EOverflow /\
+  dec C07.Model.KUint8 (IInt (-1)%Z) = Err EOther /\ typed W cx_O1 C07.Model.KUint8 (wn W (IInt (-1)%Z)) = Err EOther /\
+  dec C07.Model.KInt16 (IInt (-300)%Z) = Ok (-300)%Z /\ typed W cx_O1 C07.Model.KInt16 (wn W (IInt (-300)%Z)) = Ok (-300)%Z /\
+  (* a 9-byte text string is cut into chunks of 4 *)
+  Cbor.enc Oc (IStr [97; 98; 99; 100; 101; 102; 103; 104; 105]%N)
+    = [127; 100; 97; 98; 99; 100; 100; 101; 102; 103; 104; 97; 105; 255]%N /\
+  c_DecodeBytes D 40 (Cbor.enc Oc (IStr [97; 98; 99; 100; 101; 102; 103; 104; 105]%N) ++ [7]%N)
+    = Ok ([97; 98; 99; 100; 101; 102; 103; 104; 105]%N, [7]%N) /\
+  c_ReadArrayStart D 1 (Cbor.enc Oc (IArr [IInt 1%Z; INil]) ++ [7]%N) = Ok (LUnknown, [1; 246; 255; 7]%N) /\
+  c_TryNil [246; 255; 7]%N = Ok (true, [255; 7]%N) /\ c_CheckBreak [255; 7]%N = Ok (true, [7]%N) /\
+  c_DecodeTime D 100 (Cbor.enc Oc (ITime 1700000000%Z 123456789%N) ++ [7]%N) = Ok (1700000000%Z, 123457000%N, [7]%N) /\
+  of_item (W_cbor_t Oc D) cx_O1 0 TTime (wn (W_cbor_t Oc D) (ITime 1700000000%Z 123456789%N)) = Ok (GTime 1700000000%Z 123457000%N).
+Proof. cbv zeta. repeat apply conj; vm_compute; reflexivity. Qed.
+
+(* binc typed reads, both sides computed, in a non-empty pair of related tables: a pruned float64, the lost sign of
+   zero, a symbol definition followed by a reference to it *)
+Example C01_binc_typed_reads_nonvacuous :
+  let e := Binc.Build_eopts true false in                   (* AsSymbols *)
+  let d := Binc.Build_dopts 1024 true false in              (* SignedInteger *)
+  let W := W_binc e d in
+  let dec k i := C07.Model.decode C07.Model.binc k (zb (fst (Binc.enc e false i Binc.estate0) ++ [7; 7]%N)) in
+  fst (Binc.enc e false (IF64 4609434218613702656%N) Binc.estate0) = [59; 2; 63; 248]%N /\
+  dec C07.Model.KFloat64 (IF64 4609434218613702656%N) = Ok 4609434218613702656%Z /\
+  typed W cx_O1 C07.Model.KFloat64 (wn W (IF64 4609434218613702656%N)) = Ok 4609434218613702656%Z /\
+  dec C07.Model.KFloat64 (IF64 9223372036854775808%N) = Ok 0%Z /\
+  typed W cx_O1 C07.Model.KFloat64 (wn W (IF64 9223372036854775808%N)) = Ok 0%Z /\
+  dec C07.Model.KInt8 (IInt (-129)%Z) = Err EOverflow /\ typed W cx_O1 C07.Model.KInt8 (wn W (IInt (-129)%Z)) = Err EOverflow /\
+  dec C07.Model.KUint64 (IInt (-1)%Z) = Err EOther /\ typed W cx_O1 C07.Model.KUint64 (wn W (IInt (-1)%Z)) = Err EOther /\
+  dec C07.Model.KInt32 (IUint 70000%N) = Ok 70000%Z /\ typed W cx_O1 C07.Model.KInt32 (wn W (IUint 70000%N)) = Ok 70000%Z /\
+  (* first occurrence of the key "ab": definition of symbol 1; second: a reference, resolved in the decoder's table *)
+  (let '(b1, est1) := Binc.enc e true (IStr [97; 98]%N) Binc.estate0 in
+   let '(b2, est2) := Binc.enc e true (IStr [97; 98]%N) est1 in
+   b1 = [180; 1; 2; 97; 98]%N /\ b2 = [176; 1]%N /\
+   (do (sr, dst1) <- b_DecodeStringAsBytes Binc.dstate0 (b1 ++ b2 ++ [7]%N);;
+    do (sr2, dst2) <- b_DecodeStringAsBytes dst1 (snd sr);;
+    Ok (fst sr, fst sr2, snd sr2)) = Ok ([97; 98]%N, [97; 98]%N, [7]%N)) /\
+  b_ReadMapStart (fst (Binc.enc e false (IMap [(IStr [97; 98]%N, ITime 5%Z 0%N)]) Binc.estate0) ++ [7]%N)
+    = Ok (LKnown 1%N, [180; 1; 2; 97; 98; 130; 128; 5; 7]%N) /\
+  b_DecodeTime [130; 128; 5; 7]%N = Ok (5%Z, 0%N, [7]%N).
 Proof. cbv zeta. repeat apply conj; vm_compute; reflexivity. Qed.
